@@ -216,9 +216,64 @@ func (a *App) mapAddrValue(v interface{}) interface{} {
 	}
 }
 
+// rawCriteriaJSON encodes basket messages whose date criteria are outside the protobuf JSON range (a Timestamp
+// beyond year 9999, nanos outside [0, 1e9), a Duration beyond 10000 years): the message is encoded without its
+// criteria and the criteria are added in raw form, {"min_start_date_raw": {"seconds": "<int>", "nanos": <int>}} or
+// {"start_date_window_raw": {...}}.  Replays use the tx bytes, not this rendering.
+func rawCriteriaJSON(msg sdk.Msg) (string, json.RawMessage, bool) {
+	var dc *baskettypes.DateCriteria
+	var stripped sdk.Msg
+	field := ""
+	switch m := msg.(type) {
+	case *baskettypes.MsgCreate:
+		c := *m
+		dc, c.DateCriteria, field = m.DateCriteria, nil, "date_criteria"
+		stripped = &c
+	case *baskettypes.MsgUpdateDateCriteria:
+		c := *m
+		dc, c.NewDateCriteria, field = m.NewDateCriteria, nil, "new_date_criteria"
+		stripped = &c
+	default:
+		return "", nil, false
+	}
+	if dc == nil {
+		return "", nil, false
+	}
+	bz, err := SharedCodec().MarshalJSON(stripped)
+	if err != nil {
+		return "", nil, false
+	}
+	var obj map[string]interface{}
+	dec := json.NewDecoder(bytes.NewReader(bz))
+	dec.UseNumber()
+	if dec.Decode(&obj) != nil {
+		return "", nil, false
+	}
+	crit := map[string]interface{}{}
+	switch {
+	case dc.GetMinStartDate() != nil:
+		t := dc.GetMinStartDate()
+		crit["min_start_date_raw"] = map[string]interface{}{"seconds": strconv.FormatInt(t.Seconds, 10), "nanos": json.Number(strconv.Itoa(int(t.Nanos)))}
+	case dc.GetStartDateWindow() != nil:
+		d := dc.GetStartDateWindow()
+		crit["start_date_window_raw"] = map[string]interface{}{"seconds": strconv.FormatInt(d.Seconds, 10), "nanos": json.Number(strconv.Itoa(int(d.Nanos)))}
+	default:
+		return "", nil, false
+	}
+	obj[field] = crit
+	out, err := marshalNoEscape(obj)
+	if err != nil {
+		return "", nil, false
+	}
+	return "/" + gogoproto.MessageName(msg), canonJSON(out), true
+}
+
 func (a *App) traceMsg(msg sdk.Msg) TraceMsg {
 	url, raw, err := MsgToJSON(msg)
 	if err != nil {
+		if u, r, ok := rawCriteriaJSON(msg); ok {
+			return TraceMsg{TypeURL: u, Raw: json.RawMessage(`null`), Msg: a.MapAddresses(r)}
+		}
 		return TraceMsg{TypeURL: "/" + gogoproto.MessageName(msg), Raw: json.RawMessage(`null`), Msg: json.RawMessage(strconv.Quote("unencodable: " + err.Error()))}
 	}
 	return TraceMsg{TypeURL: url, Raw: raw, Msg: a.MapAddresses(raw)}
